@@ -184,6 +184,9 @@ def owner1(ctx, prog, cfg):
     from .. import shapes
 
     shapes.viewcmp1(ctx, prog, cfg, groups=[["Drain::as_slices", "Drain::as_mut_slices"], ["CircularBuffer::drop_range"]])
+    from .. import lenrule as _lr
+
+    _lr.view2(ctx, prog, cfg, only=("Drain::as_slices", "Drain::as_mut_slices", "CircularBuffer::drop_range"))
     owner1_from(ctx, prog, cfg, "OWNER1")
 
 
